@@ -17,7 +17,8 @@ def Obj.hom1 (o : Obj K) (b1 : Basis K) (tol : K) (us : List K) (tensor : Bool) 
 theorem Obj.outOfDomain1_iff {o : Obj K} {b1 : Basis K} (hb : o.bases = #[b1]) (tol : K)
     (us : List K) :
     o.OutOfDomain tol [us] ↔
-      (b1.periodic < 0 ∧ ∃ t ∈ us, snap b1 tol t < b1.start ∨ b1.stop < snap b1 tol t) := by
+      (b1.periodic < 0 ∧
+        (us = [] ∨ ∃ t ∈ us, snap b1 tol t < b1.start ∨ b1.stop < snap b1 tol t)) := by
   simp [Obj.OutOfDomain, hb]
 
 theorem Obj.evalCore1 {o : Obj K} {b1 : Basis K} (hb : o.bases = #[b1]) (tol : K)
@@ -84,11 +85,13 @@ theorem Obj.evaluate1_ok {o : Obj K} {b1 : Basis K} (hb : o.bases = #[b1]) (tol 
 
 theorem Obj.not_outOfDomain1 {o : Obj K} {b1 : Basis K} (hb : o.bases = #[b1])
     (hv1 : b1.Valid) {tol : K} (htol : 0 < tol) {us : List K}
-    (hus : ∀ u ∈ us, b1.Admissible tol u) :
+    (hus : ∀ u ∈ us, b1.Admissible tol u)
+    (hne1 : b1.periodic < 0 → us ≠ [] := by (first | assumption | (simp; done) | skip)) :
     ¬ o.OutOfDomain tol [us] := by
   rw [Obj.outOfDomain1_iff hb]
-  rintro ⟨h1, t, ht, h2⟩
-  exact Basis.Admissible.not_out hv1 htol (hus t ht) ⟨h1, h2⟩
+  rintro ⟨h1, h0 | ⟨t, ht, h2⟩⟩
+  · exact hne1 h1 h0
+  · exact Basis.Admissible.not_out hv1 htol (hus t ht) ⟨h1, h2⟩
 
 /-- Non-rational curve on a list of parameters: the result entries in terms of the code's rows. -/
 theorem Obj.evaluate1_grid_nonrational {o : Obj K} {b1 : Basis K} (hb : o.bases = #[b1])
@@ -165,7 +168,8 @@ theorem Obj.evaluate1_pointwise_diag {o : Obj K} {b1 : Basis K} (hb : o.bases = 
 theorem Obj.evaluate1_spec_nonrational {o : Obj K} {b1 : Basis K} (hb : o.bases = #[b1])
     (hv1 : b1.Valid) {nc : ℕ}
     (hs : o.cps.shape = [b1.numFunctions, nc]) (hr : o.rational = false)
-    {tol : K} (htol : 0 < tol) {us : List K} (hus : ∀ u ∈ us, b1.Admissible tol u) :
+    {tol : K} (htol : 0 < tol) {us : List K} (hus : ∀ u ∈ us, b1.Admissible tol u)
+    (hne1 : b1.periodic < 0 → us ≠ [] := by (first | assumption | (simp; done) | skip)) :
     ∃ res, o.evaluate tol [us] true = .ok res ∧
       res.shape = [us.length, nc] ∧ res.data.size = us.length * nc ∧
       ∀ i1 c, i1 < us.length → c < nc →
@@ -186,7 +190,8 @@ theorem Obj.evaluate1_spec_rational {o : Obj K} {b1 : Basis K} (hb : o.bases = #
     (hv1 : b1.Valid) {dim : ℕ}
     (hs : o.cps.shape = [b1.numFunctions, dim + 1]) (hr : o.rational = true)
     (hw : ∀ j1, j1 < b1.numFunctions → 0 < o.cps.get (j1 * (dim + 1) + dim))
-    {tol : K} (htol : 0 < tol) {us : List K} (hus : ∀ u ∈ us, b1.Admissible tol u) :
+    {tol : K} (htol : 0 < tol) {us : List K} (hus : ∀ u ∈ us, b1.Admissible tol u)
+    (hne1 : b1.periodic < 0 → us ≠ [] := by (first | assumption | (simp; done) | skip)) :
     ∃ res, o.evaluate tol [us] true = .ok res ∧
       res.shape = [us.length, dim] ∧ res.data.size = us.length * dim ∧
       ∀ i1, i1 < us.length →
@@ -221,7 +226,8 @@ theorem Obj.evaluate1_spec_rational {o : Obj K} {b1 : Basis K} (hb : o.bases = #
 theorem Obj.evaluate1_in_bbox {o : Obj K} {b1 : Basis K} (hb : o.bases = #[b1])
     (hv1 : b1.Valid) {nc : ℕ}
     (hs : o.cps.shape = [b1.numFunctions, nc]) (hr : o.rational = false)
-    {tol : K} (htol : 0 < tol) {us : List K} (hus : ∀ u ∈ us, b1.Admissible tol u) :
+    {tol : K} (htol : 0 < tol) {us : List K} (hus : ∀ u ∈ us, b1.Admissible tol u)
+    (hne1 : b1.periodic < 0 → us ≠ [] := by (first | assumption | (simp; done) | skip)) :
     ∃ res, o.evaluate tol [us] true = .ok res ∧
       ∀ i1 c, i1 < us.length → c < nc →
         ((o.boundingBox).getD c (0, 0)).1 ≤ res.get (i1 * nc + c) ∧
